@@ -264,6 +264,29 @@ func genCloseUnderLoad(g *vh.Gen) (string, string) {
 func gen(g *vh.Gen) {
 	// the assembled system (server.FullAssembly + Services.Start), one child process per case
 	asmsys.Gen(g, "asm15")
+	// the hub fed through the asynchronous brokers (stored, then deleted), with and without a failing monitor
+	for i := 0; i < g.N(60, 3000); i++ {
+		events := []int{1, 5, 20, 60, 200, 400}[g.Intn(6)]
+		history := []int{0, 1, 5, 30, 150}[g.Intn(5)]
+		dels, fail := "-", "-"
+		if g.Chance(0.5) {
+			var ds []string
+			seen := map[int]bool{}
+			for j := 0; j < 1+g.Intn(6); j++ {
+				back := g.Intn(min(events, max(history, 1)+3))
+				id := 100 + events - 1 - back
+				if !seen[id] {
+					seen[id] = true
+					ds = append(ds, fmt.Sprint(id))
+				}
+			}
+			dels = strings.Join(ds, ",")
+		}
+		if g.Chance(0.4) {
+			fail = fmt.Sprint(g.Intn(events + 2))
+		}
+		g.Emit("fed", fmt.Sprint(events), fmt.Sprint(history), dels, fail)
+	}
 	for i := 0; i < g.N(2, 40); i++ {
 		n, ops := genCloseUnderLoad(g)
 		g.Emit("hub", n, ops)
